@@ -20,8 +20,7 @@ TRUSTED = [
     "modelled not verified: torch.nn.functional.grid_sample (Model/Sampler.v), float rounding (float32 grid attributes)",
 ]
 ASSUMPTIONS = [
-    "the warp_image theorem is proved for D = 2 (axes / convention / exp theorems for D in {2,3}); 3-D warp_image is covered by the "
-    "implementation-side evaluation",
+    "only the vector re-scaling of FlowFields.sample is modelled (the data resampling is ImageBatch.sample)",
     "the image warped by warp_image lives on the same lattice as the flow field (as the code assumes)",
 ]
 AXN = ["GRID", "CUBE", "CUBE_CORNERS", "WORLD"]
@@ -67,7 +66,7 @@ def gen_cases(ctx):
     k = 0
     for i in range(ctx.n(64, 400)):
         kind = ["axes", "exp", "axes", "warp", "sample", "axes1", "exp"][i % 7]
-        D = 2 if (kind == "warp" or rng.random() < 0.6) else 3
+        D = 2 if rng.random() < 0.6 else 3
         nmax = 4 if D == 2 else 3
         if kind in ("axes", "axes1"):
             a, b = pairs[k % 16]
@@ -91,7 +90,7 @@ def gen_cases(ctx):
                           "scale": rng.choice([1, 1, 0.5, -1]), "steps": rng.choice([0, 1, 2])})
         elif kind == "warp":
             a = rng.choice(AXN)
-            g = small_grid(rng, D, 4)
+            g = small_grid(rng, D, nmax)
             amp = {"GRID": 1.2, "CUBE": 0.8, "CUBE_CORNERS": 0.8, "WORLD": 1.0 * min(g["spacing"])}[a]
             img = rand_field(rng, 1, shape_of(g), 2, 3)
             cases.append({"kind": kind, "D": D, "a": a, "grids": [g], "data": [rand_field(rng, D, shape_of(g), amp, 4)], "image": [img]})
@@ -138,13 +137,13 @@ def correspondence(ctx):
             sc = qc(float(c["scale"]))
             u = qc_nested(c["data"][0])
             o = qc_nested(r["val"][0])
-            for variant in ("code", "spec"):
-                lines.append(f"Definition c{i}_{variant} : bool := fclose{D} tol (exp_{variant}{D} (K:=QcF) floorQ {c['a']} {gcoq(st[0])} {sc} "
-                             f"{c['steps']} {u}) {o}.")
-                names.append((i, f"c{i}_{variant}", variant))
+            lines.append(f"Definition c{i} : bool := fclose{D} tol (exp_code{D} (K:=QcF) floorQ {c['a']} {gcoq(st[0])} {sc} "
+                         f"{c['steps']} {u}) {o}.")
+            names.append((i, f"c{i}", "plain"))
             evals += 1
         elif c["kind"] == "warp":
-            lines.append(f"Definition c{i} : bool := mcloser tol (warp2 (K:=QcF) floorQ PZeros {c['a']} {gcoq(st[0])} "
+            cmp = "mcloser tol" if D == 2 else "all2 (mcloser tol)"
+            lines.append(f"Definition c{i} : bool := {cmp} (warp{D} (K:=QcF) floorQ PZeros {c['a']} {gcoq(st[0])} "
                          f"{qc_nested(c['image'][0][0])} {qc_nested(c['data'][0])}) {qc_nested(r['val'][0][0])}.")
             names.append((i, f"c{i}", "plain"))
             evals += 1
@@ -172,32 +171,16 @@ def correspondence(ctx):
         badset = set(bad)
         for j, (i, nm, variant) in enumerate(nms):
             verdict.setdefault(i, {})[variant] = j not in badset
-    exp_variant = {"code-only": 0, "spec-only": 0, "both": 0}
     for i, v in verdict.items():
         c = cases[i]
         slim = {k: x for k, x in c.items() if k not in ("ngrids_model",)}
-        if "plain" in v:
-            if not v["plain"]:
-                failures.append({"case": slim, "why": "model value differs from implementation"})
-        else:
-            if v.get("code") and v.get("spec"):
-                exp_variant["both"] += 1
-            elif v.get("code"):
-                exp_variant["code-only"] += 1
-            elif v.get("spec"):
-                exp_variant["spec-only"] += 1
-            else:
-                failures.append({"case": slim, "why": "FlowFields.exp is neither the coded model (exp_code) nor the specification (exp_spec)"})
-    if exp_variant["code-only"] and exp_variant["spec-only"]:
-        failures.append({"why": f"FlowFields.exp matches the defective model on some inputs and the specification on others: {exp_variant}"})
-    ctx.notes.append(f"FlowFields.exp agrees with: {exp_variant} (code-only = exponentiates the unconverted tensor, DESIGN 5 #6; "
-                     "the property-level consequence is reported by the search)")
-    dist["exp-model-variant"] = exp_variant
+        if not v.get("plain", False):
+            failures.append({"case": slim, "why": "model value differs from implementation"})
     samples = [{"case": {k: v for k, v in cases[i].items() if k != "ngrids_model"}, "impl": res[i]} for i in range(min(2, len(cases)))]
     return {"evaluations": evals, "distinct_nontrivial": len({str(c) for c in cases}),
             "rule": "all 16 ordered axes pairs (batches of 1-3 with shared / per-item rotated anisotropic grids, FlowFields and FlowField); "
-                    "exp per axes x steps 0..2 x scale (D = 2, 3) against both the coded and the specified model; warp_image per axes "
-                    "(zeros padding, D = 2); the vector re-scaling of sample(grid') against gen_vecs2 applied to the resampled data; fields "
+                    "exp per axes x steps 0..2 x scale (D = 2, 3) against the coded model (= the specification, proved); warp_image per axes "
+                    "(zeros padding, D = 2, 3); the vector re-scaling of sample(grid') against gen_vecs2 applied to the resampled data; fields "
                     "are random dyadic (never all-zero), distinct by full input",
             "samples": samples, "failures": failures, "distribution": dist,
             "tolerances": {"all": "2e-5 * (1 + |model|) (grid attributes are float32 in the implementation; the model uses the stored values)"}}
@@ -226,7 +209,7 @@ def search(ctx, broken, corr_failures):
 
 
 def explains(broken_item, found):
-    keys = " ".join(v.key for v in found if not v.key.startswith("C10:FlowFields.exp:unconverted") and not v.key.startswith("C10:normalize_grid"))
+    keys = " ".join(v.key for v in found if not v.key.startswith("C10:normalize_grid"))
     return bool(keys)
 
 
@@ -252,12 +235,12 @@ MANIFEST_ENTRY = {
             "item's own grid point map at x+v and x (derived from the C01 theorems on the generated Grid.transform_vectors); for D in {2,3}, any "
             "lattice size: compose_flows / expv on cube vectors of either align_corners convention are the same index-space operation, and "
             "exp AS SPECIFIED commutes with representation changes (it is the index-space operation conjugated by the representation "
-            "change); D = 2: warp_image gives the same image for all four representations of one displacement; FlowFields.exp AS CODED "
-            "equals the specification for cube axes (partial) and differs for WORLD axes (C10_exp_code_refuted, vm_compute witness). Tie: "
+            "change), and warp_image gives the same image for all four representations of one displacement; FlowFields.exp AS CODED "
+            "is the specification for all four axes, hence representation independent (the repaired defect -- exponentiating the "
+            "unconverted tensor -- is kept as a variant and proved different: C10_exp_unconverted_differs). Tie: "
             "Gen/GridT.v regenerated by tracing; hand model of data/flow.py run in Coq against FlowFields / FlowField axes (16 pairs, shared "
-            "/ per-item grids), exp (coded vs specified variant recorded), warp_image, sample's vector re-scaling.",
-    "note": "Refuted on the unchanged tree (known findings): FlowFields.exp exponentiates the unconverted tensor (WORLD / GRID axes); "
-            "normalize_grid / denormalize_grid(align_corners=False) are half a sample off the grid's GRID<->CUBE point map. Partial: the 3-D "
-            "warp_image theorem is not proved (implementation-side evaluation only); the data resampling "
+            "/ per-item grids), exp, warp_image, sample's vector re-scaling.",
+    "note": "Known finding: "
+            "normalize_grid / denormalize_grid(align_corners=False) are half a sample off the grid's GRID<->CUBE point map. Partial: the data resampling "
             "inside sample() is ImageBatch.sample (C05/C19). Trusted: Coq kernel, vm_compute, F.grid_sample model, symtorch, float rounding.",
 }
